@@ -233,3 +233,11 @@ Proof.
   replace (T <? Z.of_nat (S (2 * k)) - Z.of_nat 0 + 1) with false; [reflexivity|].
   symmetry. apply Z.ltb_ge. lia.
 Qed.
+
+(* ---- the query parser's two limits on the shape "k terms inside d nested parentheses" ---- *)
+Lemma query_accept_spec D T d k :
+  query_accept (Some D) (Some T) d k = true <-> d <= D /\ 2 * d + k + 1 <= T.
+Proof.
+  unfold query_accept, within_limit, query_term_calls.
+  rewrite andb_true_iff, !Z.leb_le. tauto.
+Qed.
